@@ -228,6 +228,10 @@ bool comp_init(zckCtx *zck) {
                 zck->chunk_auto_max = zck->chunk_max_size;
             zck_log(ZCK_LOG_DEBUG, "Setting automatic maximum chunk size to %llu",
                     (long long unsigned) zck->chunk_auto_max);
+            /* A small maximum chunk size must not end up below the automatic
+             * minimum, or no chunk boundary would ever be accepted */
+            if(zck->chunk_auto_min > zck->chunk_auto_max)
+                zck->chunk_auto_min = zck->chunk_auto_max;
         }
     }
 
